@@ -1,7 +1,7 @@
 // Obligation unit `layout`: variant-closing strategies of the native builder.
 //!min-verified: 40
 //!assume: std: `X.iter().cloned()` yields the elements of X in order (rule R10, `vx_iter_cloned` is external_body)
-//!assume: L4 `remove_data` (retain/any over a cloned iterator) is external_body here: contract `self' = filtered(self, ids)`; the same contract is checked on the real function by Kani (bounded) in unit kani-definition (harness l4_remove_data_is_filter_keeping_order)
+//!assume: std: Vec::retain keeps, in order, exactly the elements its predicate accepts (assume_specification); `X.clone().into_iter().any(p)` is true iff p accepts some element of the source (rule R12, external_body wrapper). With these, `remove_data` itself is proved here; it is also checked by Kani (bounded) in unit kani-definition (harness l4_remove_data_is_filter_keeping_order)
 //!assume: derive(Clone, Copy, PartialEq, Eq) on DatumId behaves as documented (rule R5)
 //!assume: domain bound: ends of existing data <= 2^30, size+align of an added datum <= 2^14, <= 2^16 additions per close; outside it usize arithmetic of the real code overflows
 //!assume: Verus' encoding of Rust semantics, Z3, rustc front end
@@ -24,6 +24,7 @@
 //!props lemma lemma_wf_nonzst_strict : C02
 // Everything between `// from <file>:<line>` markers and the next blank template text is copied
 // from /repo on every run by lib/vx.py; contracts are spliced in.  See DESIGN.md 3.2.
+#![feature(allocator_api)]
 #![allow(unused_imports, unused_variables, dead_code, non_snake_case, unused_mut)]
 use vstd::prelude::*;
 
@@ -36,7 +37,7 @@ verus! {
 // ---------------------------------------------------------------------------------------------
 // Types (R5: attributes and derives dropped, fields made pub)
 
-#[derive(Clone, Copy, PartialEq, Eq)]
+#[derive(Clone, Copy, PartialEq, Eq, Structural)]
 //@struct truc/src/record/definition/mod.rs :: struct DatumId
 //@end
 
@@ -142,6 +143,39 @@ pub struct ExCloned<I>(core::iter::Cloned<I>);
 
 pub uninterp spec fn iter_ids<I>(i: I) -> Seq<DatumId>;
 
+pub assume_specification<T, A: core::alloc::Allocator, F: FnMut(&T) -> bool>[ Vec::<T, A>::retain::<F> ](v: &mut Vec<T, A>, f: F)
+    requires
+        forall|x: &T| f.requires((x,)),
+    ensures
+        exists|keep: Seq<bool>| keep.len() == old(v)@.len()
+            && (forall|i: int| 0 <= i < keep.len() ==> f.ensures((&(#[trigger] old(v)@[i]),), keep[i]))
+            && final(v)@ == kept(old(v)@, keep);
+
+/// `src.clone().into_iter().any(p)` for a generic `IntoIterator<Item = DatumId> + Clone` source whose
+/// elements are `iter_ids(src)` (rule R12; body = the original expression)
+#[verifier::external_body]
+pub fn vx_clone_into_iter_any<I: IntoIterator<Item = DatumId> + Clone, P: FnMut(DatumId) -> bool>(src: &I, p: P) -> (r: bool)
+    requires
+        forall|x: DatumId| p.requires((x,)),
+    ensures
+        r ==> exists|j: int| 0 <= j < iter_ids(*src).len() && p.ensures((#[trigger] iter_ids(*src)[j],), true),
+        !r ==> forall|j: int| 0 <= j < iter_ids(*src).len() ==> p.ensures((#[trigger] iter_ids(*src)[j],), false),
+{
+    src.clone().into_iter().any(p)
+}
+
+/// the sub-sequence of `s` selected by `keep`, order kept
+pub open spec fn kept<T>(s: Seq<T>, keep: Seq<bool>) -> Seq<T>
+    decreases s.len(),
+{
+    if s.len() == 0 || keep.len() != s.len() {
+        Seq::empty()
+    } else {
+        let p = kept(s.drop_last(), keep.drop_last());
+        if keep.last() { p.push(s.last()) } else { p }
+    }
+}
+
 #[verifier::external_body]
 pub fn vx_iter_cloned<'a>(v: &'a Vec<DatumId>) -> (r: core::iter::Cloned<core::slice::Iter<'a, DatumId>>)
     ensures iter_ids(r) == v@,
@@ -168,6 +202,28 @@ pub proof fn lemma_al(c: int, a: int)
         vstd::arithmetic::mul::lemma_mul_is_commutative(a, k);
         assert(x == k * a + (a - 1));
         vstd::arithmetic::div_mod::lemma_fundamental_div_mod_converse(x, a, k, a - 1);
+    }
+}
+
+pub proof fn lemma_kept_is_filtered(s: Seq<DatumId>, keep: Seq<bool>, rm: Seq<DatumId>)
+    requires
+        keep.len() == s.len(),
+        forall|i: int| 0 <= i < s.len() ==> keep[i] == !rm.contains(#[trigger] s[i]),
+    ensures
+        kept(s, keep) == filtered(s, rm),
+    decreases s.len(),
+{
+    if s.len() > 0 {
+        let s2 = s.drop_last();
+        let k2 = keep.drop_last();
+        assert forall|i: int| 0 <= i < s2.len() implies k2[i] == !rm.contains(#[trigger] s2[i]) by {
+            assert(s2[i] == s[i] && k2[i] == keep[i]);
+        }
+        lemma_kept_is_filtered(s2, k2, rm);
+        assert(keep.last() == keep[s.len() - 1]);
+        assert(s.last() == s[s.len() - 1]);
+    } else {
+        assert(kept(s, keep) =~= filtered(s, rm));
     }
 }
 
@@ -544,10 +600,23 @@ impl NativeDataUpdater for Vec<DatumId> {
         }
 //@end
 
-// L4: contract assumed here (retain / any / IntoIterator are outside Verus' reach); the same
-// contract is checked on this function by Kani (bounded) -- see kani/truc_layout.rs
+// L4: proved against assumed std specs for Vec::retain and for `clone().into_iter().any(..)` (rule
+// R12); the same contract is also checked on this function by Kani (bounded), unit kani-definition
 //@fn truc/src/record/definition/builder/native/variant/mod.rs :: impl NativeDataUpdater for Vec<DatumId> :: fn remove_data
-//@ attr #[verifier::external_body]
+//@ closure 1 params={datum_id__r: &DatumId} ret={(b: bool)}
+            ensures b == !iter_ids(datum_ids).contains(*datum_id__r)
+//@ closure 2 params={did: DatumId} ret={(c: bool)}
+            ensures c == (did == datum_id)
+//@ hint fn.start
+        let ghost data0 = self@;
+//@ hint fn.end
+        proof {
+            let rm = iter_ids(datum_ids);
+            let keep = choose|keep: Seq<bool>| keep.len() == data0.len()
+                && (forall|i: int| 0 <= i < keep.len() ==> keep[i] == !rm.contains(#[trigger] data0[i]))
+                && self@ == kept(data0, keep);
+            lemma_kept_is_filtered(data0, keep, rm);
+        }
 //@end
 
 //@fn truc/src/record/definition/builder/native/variant/mod.rs :: impl NativeDataUpdater for Vec<DatumId> :: fn push_datum
